@@ -2,11 +2,79 @@
    and the combined entry point used by the extracted driver. *)
 From Coq Require Import List Bool ZArith QArith Arith.
 Import ListNotations.
-From PS Require Import Num ModelKernels ModelFuncs ModelAPI Val Dispatch.
+From PS Require Import Num ModelKernels ModelFuncs ModelAPI Spec Val Dispatch.
 Local Open Scope nat_scope.
+
+Definition encOpt (v : option Q) : val :=
+  match v with Some q => VQ q | None => VE AssertionError end.
 
 Definition spec_dispatch (id : nat) (args : list val) : val :=
   match id, args with
+  | 100, [a; b; VQ ts; VQ te; VQ m] =>
+      match asQs a, asQs b with
+      | Some s1, Some s2 => encPwc (isi_spec o s1 s2 ts te m)
+      | _, _ => bad end
+  | 101, [a; b; VQ ts; VQ te; VQ m; VB ri] =>
+      match asQs a, asQs b with
+      | Some s1, Some s2 => encPwl (spike_spec o s1 s2 ts te m ri)
+      | _, _ => bad end
+  | 102, [a; b; VQ ts; VQ te; VQ mt; VQ m] =>
+      match asQs a, asQs b with
+      | Some s1, Some s2 => encDf (sync_spec o s1 s2 ts te mt m)
+      | _, _ => bad end
+  | 103, [a; b; VQ ts; VQ te; VQ mt; VQ m] =>
+      match asQs a, asQs b with
+      | Some s1, Some s2 => encQs (single_spec o s1 s2 ts te mt m)
+      | _, _ => bad end
+  | 104, [a; b; VQ ts; VQ te; VQ mt; VQ m] =>
+      match asQs a, asQs b with
+      | Some s1, Some s2 => encDf (order_spec o s1 s2 ts te mt m)
+      | _, _ => bad end
+  | 105, [a; b; VQ ts; VQ te; VQ mt; VQ m] =>
+      match asQs a, asQs b with
+      | Some s1, Some s2 =>
+          let d := dir_spec o s1 s2 ts te mt m in VL [encQs (fst d); encQs (snd d)]
+      | _, _ => bad end
+  | 106, [VQ mt; VQ m; VQ thr; l] =>
+      match asTrains l with
+      | Some ts => VL (map (fun kr => VL [encQs (fst kr); encQs (snd kr)]) (filter_spec o mt m thr ts))
+      | None => bad end
+  | 110, [x; y; VL [VQ a; VQ b]] =>
+      match asQs x, asQs y with
+      | Some xs, Some ys => VQ (pwc_overlap o xs ys a b)
+      | _, _ => bad end
+  | 111, [x; y1; y2; VL [VQ a; VQ b]] =>
+      match asQs x, asQs y1, asQs y2 with
+      | Some xs, Some p, Some q => VQ (pwl_overlap o xs p q a b)
+      | _, _, _ => bad end
+  | 112, [x; y; VQ t] =>
+      match asQs x, asQs y with
+      | Some xs, Some ys => encOpt (pwc_eval o (xs, ys) t)
+      | _, _ => bad end
+  | 113, [x; y1; y2; VQ t] =>
+      match asQs x, asQs y1, asQs y2 with
+      | Some xs, Some p, Some q => encOpt (pwl_eval o (xs, p, q) t)
+      | _, _, _ => bad end
+  | 120, [x1; y1; x2; y2] =>
+      match asQs x1, asQs y1, asQs x2, asQs y2 with
+      | Some a, Some b, Some c, Some d => encPwc (pwc_add_spec o (a, b) (c, d))
+      | _, _, _, _ => bad end
+  | 121, [x1; y11; y12; x2; y21; y22] =>
+      match asQs x1, asQs y11, asQs y12, asQs x2, asQs y21, asQs y22 with
+      | Some a, Some b, Some c, Some d, Some e, Some f => encPwl (pwl_add_spec o (a, b, c) (d, e, f))
+      | _, _, _, _, _, _ => bad end
+  | 130, [x1; y1; m1; x2; y2; m2] =>
+      match asEntries x1 y1 m1, asEntries x2 y2 m2 with
+      | Some f, Some g => encDf (df_add_spec o f g)
+      | _, _ => bad end
+  | 131, [x; y; mp; iv] =>
+      match asEntries x y mp, asIvspec iv with
+      | Some f, Some i => encPairQ (df_integral_spec o f i)
+      | _, _ => bad end
+  | 140, [l] =>
+      match asTrains l with Some ts => VL (map encTrain (reconcile_spec o eps ts)) | None => bad end
+  | 141, [l; VQ ts; VQ te] =>
+      match asQs l with Some s => encQs (isi_lengths_spec o s ts te) | None => bad end
   | _, _ => bad
   end.
 
